@@ -127,6 +127,9 @@ func (s *Sys) StuckReport() (string, string) {
 	return strings.Join(parts, "; "), shape
 }
 
+// genericShape switches the recognition of the known serializable-predecessor wake-up defect off (see AtQuiescence).
+var genericShape bool
+
 // stuckShape classifies where the first stuck transaction sits (used as violation signature shape).
 func stuckShape(r *Recorder, tx *configapi.Transaction) string {
 	ph := TxPhase(tx)
@@ -144,7 +147,7 @@ func stuckShape(r *Recorder, tx *configapi.Transaction) string {
 	case tx.Status.Phases.Initialize != nil && tx.Status.Phases.Initialize.State == configapi.TransactionInitializePhase_INITIALIZED:
 		waitsFor = configapi.TransactionStatus_VALIDATED
 	}
-	if waitsFor != configapi.TransactionStatus_PENDING {
+	if waitsFor != configapi.TransactionStatus_PENDING && !genericShape {
 		for _, pid := range tx.Status.Proposals {
 			if p := r.Props[string(pid)]; p != nil && p.Status.PrevIndex != 0 {
 				if prev := r.Txs[uint64(p.Status.PrevIndex)]; prev != nil && prev.Isolation == configapi.TransactionStrategy_SERIALIZABLE && prev.Status.State >= waitsFor {
@@ -199,21 +202,40 @@ func (m *c09) AtQuiescence() {
 	s := m.s
 	// (b) progress: every logged transaction is final
 	if stuck, shape := s.StuckReport(); stuck != "" {
-		s.Report("C09", "progress", "stranded:"+shape, "quiescent (no pending work anywhere, every target connected) but not final: "+stuck)
+		// Stranded (nobody looks at a record that could move: a lost wake-up) or blocked (it does not move even when
+		// looked at)? Every record is handed to every controller again, repeatedly while that makes progress.
+		final := false
+		for round := 0; round < 4; round++ {
+			w0 := s.RT.Writes
+			if !m.reexamine() {
+				break
+			}
+			if st, _ := s.StuckReport(); st == "" {
+				final = true
+				break
+			}
+			if s.RT.Writes == w0 {
+				break
+			}
+		}
+		if final {
+			s.Report("C09", "progress", "stranded:"+shape, "quiescent (no pending work anywhere, every target connected) but not final (final once every record was re-examined: a lost wake-up): "+stuck)
+		} else {
+			genericShape = true
+			stuck2, shape2 := s.StuckReport()
+			genericShape = false
+			s.Report("C09", "progress", "blocked:"+shape2, "quiescent, every target connected, and not final even after every record was handed to every controller again: "+stuck2+" (before the re-examination: "+stuck+")")
+		}
 		return
 	}
 	// (a) fixed point: re-examining every record changes nothing
 	m.fixedPoint()
 }
 
-func (m *c09) fixedPoint() {
+// reexamine enqueues every record into every controller and settles; false if it did not settle.
+func (m *c09) reexamine() bool {
 	s := m.s
 	r := s.Rec
-	writes0, topo0 := s.RT.Writes, s.Topo.Writes
-	sets0 := 0
-	for _, d := range s.Devs {
-		sets0 += d.NSets
-	}
 	for _, c := range s.Inc.ctls {
 		switch c.Name {
 		case "transaction":
@@ -241,7 +263,17 @@ func (m *c09) fixedPoint() {
 		}
 	}
 	s.K.Trace = append(s.K.Trace, "fixed-point-pass")
-	if !s.Settle(20000) {
+	return s.Settle(20000)
+}
+
+func (m *c09) fixedPoint() {
+	s := m.s
+	writes0, topo0 := s.RT.Writes, s.Topo.Writes
+	sets0 := 0
+	for _, d := range s.Devs {
+		sets0 += d.NSets
+	}
+	if !m.reexamine() {
 		s.Report("C09", "fixed-point", "no-settle", "re-examination of all records did not settle within 20000 steps")
 		return
 	}
